@@ -266,8 +266,9 @@ theorem walk_spec (steps : List (Event × Option Err)) :
         simp only [Option.map_some, Option.some.injEq]
         exact hpre _ (List.getElem_mem this)
       · simp only [List.nil_append, List.map_append, List.map_cons]
-        rw [List.take_append]
-        simp
+        have : (List.map (·.1) pre ++ e :: List.map (·.1) post)
+            = (List.map (·.1) pre ++ [e]) ++ List.map (·.1) post := by simp
+        rw [this, List.take_left' (by simp)]
 
 /-- Forward direction: the first failing position determines the whole outcome. -/
 theorem walk_first (steps : List (Event × Option Err)) (i : Nat) (er : Err)
@@ -290,7 +291,8 @@ theorem walk_first (steps : List (Event × Option Err)) (i : Nat) (er : Err)
     rw [hi] at h1
     have : er = er' := by simpa using h1
     subst this
-    rw [← h3, h4, ← hres]
+    subst h4
+    rw [← h3, ← hres]
 
 /-! ## a per-field loop only appends events of its own phase -/
 
